@@ -7,32 +7,34 @@
    honest endpoints."
 
   Model: MM/Model/C04.lean (symbolic).  The property is proved for a RELAYING transit (it forwards
-  the open/ack frames it is given — the situation the statement describes: honest endpoints, frames
-  relayed).  The stronger variant against a transit that REWRITES the ephemeral keys in open/ack is
-  stated as `C04_statement_active` and REFUTED (`C04_active_refuted_mitm`): no tunnel kind
-  authenticates the ephemeral keys, a transit can substitute its own.  `C04_active_partial` is the
-  strongest true restriction: a transit that can only forward or ZERO the key fields learns nothing,
-  for every kind — on the pinned tree that failed for UDP/ICMP (`C04_pinned_zero_key_downgrade`:
-  zeroing the key field switched both honest ends to plaintext), repaired by
-  fixes/C04-refuse-zero-ephemeral-key.patch.
+  the open/ack frames it is given — the situation the statement describes), for every zero-key
+  table, i.e. for the pinned tree and the repaired one alike.
 
-  Tie: engine `c04` (harness/main/eng_c04.go): (1) unit level — real udp.Association / icmp.Session
-  with and without a session key, agent.deriveICMPSessionKey / agent.deriveResponderSessionKey on a
-  zero remote key, compared with `decide`; (2) a 3-agent in-process mesh of real agents with a tap on
-  the transit's inbound frames.
+  The stronger variant against a transit that REWRITES the ephemeral key fields is
+  `C04_statement_active`.  It is refuted for every table by key substitution
+  (`C04_active_refuted_mitm`: ephemeral keys are unauthenticated — a protocol limit).  Against a
+  transit that can only forward or ZERO the key fields:
+    * on the pinned tree it is refuted too (`C04_pinned_zero_key_downgrade`): zeroing the key in a
+      UDP/ICMP open switches both honest ends to plaintext — no key needed;
+    * once the ingress refuses a key-less ack (fixes/C04-ingress-requires-ephemeral-key.patch) it
+      holds for every kind (`C04_active_partial`).
+
+  Tie: engine `c04` (harness/main/eng_c04.go): unit-level ops, probes regenerated into MM/Gen/C04.lean,
+  and a 3-agent in-process mesh of real agents with a tap on the transit — passive for every tunnel
+  kind, and ACTIVE for UDP (the tap zeroes the key fields of UDP_OPEN / UDP_OPEN_ACK).
 -/
 import MM.Model.C04
 
 namespace MM.C04
 
-/-- Both honest ends pick the same key behind a relaying transit (C03 in symbolic form). -/
-theorem C04_same_key (kd : Kind) (req : Nat) :
-    decide kd .ingress true req (.pub .exit) = decide kd .exit false req (.pub .ingress) := rfl
+/-- The session key behind a relaying transit. -/
+def sessionKey (req : Nat) : Term := .kdf (.shared .ingress .exit) req (.pub .ingress) (.pub .exit)
 
-theorem wire_eq (kd : Kind) (t : Tamper) (req dest bound : Nat) (up down : List Nat) :
-    wire kd t req dest bound up down =
-      ingressFrames noFallback kd req dest t.rkSeenByIngress up ++
-      exitFrames noFallback kd req bound t.ikSeenByExit down := rfl
+/-- Both honest ends pick the same key behind a relaying transit, whatever the zero-key tables
+    (C03 in symbolic form). -/
+theorem C04_same_key (T : Tables) (kd : Kind) (req : Nat) :
+    exitMode T kd req passive = .sealWith (sessionKey req) ∧
+    ingressMode T kd req passive = .sealWith (sessionKey req) := ⟨rfl, rfl⟩
 
 theorem dataFrames_sealed (k : Term) (pfx : Nat) (cs : List Nat) (ctr : Nat) :
     ∀ f ∈ dataFrames (.sealWith k) pfx ctr cs, ∃ c n, f = ⟨.data, [.sealed k pfx n (.atom c)]⟩ := by
@@ -45,180 +47,194 @@ theorem dataFrames_sealed (k : Term) (pfx : Nat) (cs : List Nat) (ctr : Nat) :
     · exact ⟨c, ctr, h⟩
     · exact ih (ctr + 1) f h
 
-/-- The session key behind a relaying transit. -/
-def sessionKey (req : Nat) : Term := .kdf (.shared .ingress .exit) req (.pub .ingress) (.pub .exit)
+theorem dataFrames_plain (pfx : Nat) (cs : List Nat) (ctr : Nat) :
+    ∀ f ∈ dataFrames .plaintext pfx ctr cs, ∃ c, f = ⟨.data, [.atom c]⟩ := by
+  induction cs generalizing ctr with
+  | nil => intro f hf; cases hf
+  | cons c cs ih =>
+    intro f hf
+    simp only [dataFrames] at hf
+    rcases List.mem_cons.mp hf with h | h
+    · exact ⟨c, h⟩
+    · exact ih (ctr + 1) f h
 
-/-- C04 (i): behind a relaying transit, for EVERY tunnel kind, request id, destination and payload
-    in either direction, every data frame's application field is `sealed sessionKey (dir, ctr) chunk`. -/
-theorem C04_payload_sealed (kd : Kind) (req dest bound : Nat) (up down : List Nat) :
-    ∀ f ∈ wire kd passive req dest bound up down, f.typ = .data →
+theorem dataFrames_refuse (pfx : Nat) (cs : List Nat) (ctr : Nat) : dataFrames .refuse pfx ctr cs = [] := by
+  cases cs <;> rfl
+
+theorem wire_passive (T : Tables) (kd : Kind) (req dest bound : Nat) (up down : List Nat) :
+    wireWith T kd passive req dest bound up down =
+      ⟨.openF, [.const req, .const dest, .pub .ingress]⟩ ::
+      (dataFrames (.sealWith (sessionKey req)) 0 0 up ++
+       ⟨.ack, [.const req, .const bound, .pub .exit]⟩ ::
+       dataFrames (.sealWith (sessionKey req)) 0x80000000 0 down) := rfl
+
+/-- C04 (i): behind a relaying transit, for EVERY tunnel kind, zero-key table, request id,
+    destination and payload in either direction, every data frame's application field is
+    `sealed sessionKey (dir, ctr) chunk`. -/
+theorem C04_payload_sealed (T : Tables) (kd : Kind) (req dest bound : Nat) (up down : List Nat) :
+    ∀ f ∈ wireWith T kd passive req dest bound up down, f.typ = .data →
       ∃ c pfx n, f = ⟨.data, [.sealed (sessionKey req) pfx n (.atom c)]⟩ := by
   intro f hf hd
-  rw [wire_eq] at hf
-  unfold ingressFrames exitFrames passive at hf
-  simp only [decideWith, dhT] at hf
-  rcases List.mem_append.mp hf with h | h
-  · rcases List.mem_cons.mp h with h | h
-    · rw [h] at hd; cases hd
+  rw [wire_passive] at hf
+  rcases List.mem_cons.mp hf with h | h
+  · rw [h] at hd; cases hd
+  · rcases List.mem_append.mp h with h | h
     · obtain ⟨c, n, hc⟩ := dataFrames_sealed _ _ _ _ f h
       exact ⟨c, 0, n, hc⟩
-  · rcases List.mem_cons.mp h with h | h
-    · rw [h] at hd; cases hd
-    · obtain ⟨c, n, hc⟩ := dataFrames_sealed _ _ _ _ f h
-      exact ⟨c, 0x80000000, n, hc⟩
+    · rcases List.mem_cons.mp h with h | h
+      · rw [h] at hd; cases hd
+      · obtain ⟨c, n, hc⟩ := dataFrames_sealed _ _ _ _ f h
+        exact ⟨c, 0x80000000, n, hc⟩
 
-/-- C04 (ii): no frame field is a private key, a shared secret or a derived key — for ANY transit
-    behaviour (frames carry only public keys, public constants and sealed/plain chunks). -/
-theorem C04_key_not_on_wire (kd : Kind) (t : Tamper) (req dest bound : Nat) (up down : List Nat) :
-    ∀ f ∈ wire kd t req dest bound up down, ∀ x ∈ f.fields, isSecretMaterial x = false := by
-  have hdata : ∀ (m : Mode) (pfx : Nat) (cs : List Nat) (ctr : Nat), ∀ f ∈ dataFrames m pfx ctr cs,
-      ∀ x ∈ f.fields, isSecretMaterial x = false := by
-    intro m pfx cs
-    induction cs with
-    | nil => intro ctr f hf; cases hf
-    | cons c cs ih =>
-      intro ctr f hf x hx
-      cases m with
-      | sealWith k =>
-        simp only [dataFrames] at hf
-        rcases List.mem_cons.mp hf with h | h
-        · subst h; simp only [List.mem_singleton] at hx; subst hx; rfl
-        · exact ih (ctr + 1) f h x hx
-      | plaintext =>
-        simp only [dataFrames] at hf
-        rcases List.mem_cons.mp hf with h | h
-        · subst h; simp only [List.mem_singleton] at hx; subst hx; rfl
-        · exact ih (ctr + 1) f h x hx
-      | refuse => simp only [dataFrames] at hf; cases hf
+theorem dataFrames_no_secret (m : Mode) (pfx : Nat) (cs : List Nat) (ctr : Nat) :
+    ∀ f ∈ dataFrames m pfx ctr cs, ∀ x ∈ f.fields, isSecretMaterial x = false := by
   intro f hf x hx
-  rw [wire_eq] at hf
-  unfold ingressFrames exitFrames at hf
-  rcases List.mem_append.mp hf with h | h
-  · rcases List.mem_cons.mp h with h | h
-    · subst h
-      simp only [List.mem_cons, List.mem_nil_iff, or_false] at hx
-      rcases hx with rfl | rfl | rfl <;> rfl
-    · exact hdata _ _ _ _ f h x hx
-  · split at h
-    · cases h
-    · rcases List.mem_cons.mp h with h | h
-      · subst h
-        simp only [List.mem_cons, List.mem_nil_iff, or_false] at hx
-        rcases hx with rfl | rfl | rfl <;> rfl
-      · exact hdata _ _ _ _ f h x hx
-    · rcases List.mem_cons.mp h with h | h
-      · subst h
-        simp only [List.mem_cons, List.mem_nil_iff, or_false] at hx
-        rcases hx with rfl | rfl | rfl <;> rfl
-      · exact hdata _ _ _ _ f h x hx
+  cases m with
+  | sealWith k =>
+    obtain ⟨c, n, hc⟩ := dataFrames_sealed k pfx cs ctr f hf
+    subst hc; simp only [List.mem_singleton] at hx; subst hx; rfl
+  | plaintext =>
+    obtain ⟨c, hc⟩ := dataFrames_plain pfx cs ctr f hf
+    subst hc; simp only [List.mem_singleton] at hx; subst hx; rfl
+  | refuse => rw [dataFrames_refuse] at hf; cases hf
+
+/-- C04 (ii): no frame field is a private key, a shared secret or a derived key — for ANY table and
+    ANY transit behaviour (frames carry only public keys, public constants and sealed/plain chunks). -/
+theorem C04_key_not_on_wire (T : Tables) (kd : Kind) (t : Tamper) (req dest bound : Nat) (up down : List Nat) :
+    ∀ f ∈ wireWith T kd t req dest bound up down, ∀ x ∈ f.fields, isSecretMaterial x = false := by
+  intro f hf x hx
+  unfold wireWith at hf
+  have hfield3 : ∀ (a b c : Term), isSecretMaterial a = false → isSecretMaterial b = false →
+      isSecretMaterial c = false → ∀ y ∈ [a, b, c], isSecretMaterial y = false := by
+    intro a b c ha hb hc y hy
+    simp only [List.mem_cons, List.mem_nil_iff, or_false] at hy
+    rcases hy with rfl | rfl | rfl <;> assumption
+  rcases List.mem_cons.mp hf with h | h
+  · subst h; exact hfield3 _ _ _ rfl rfl rfl x hx
+  · rcases List.mem_append.mp h with h | h
+    · exact dataFrames_no_secret _ _ _ _ f h x hx
+    · split at h
+      · cases h
+      · rcases List.mem_cons.mp h with h | h
+        · subst h; exact hfield3 _ _ _ rfl rfl rfl x hx
+        · split at h
+          · exact dataFrames_no_secret _ _ _ _ f h x hx
+          · cases h
+      · rcases List.mem_cons.mp h with h | h
+        · subst h; exact hfield3 _ _ _ rfl rfl rfl x hx
+        · exact dataFrames_no_secret _ _ _ _ f h x hx
+
+theorem sealed_invisible {k : Term} (hk : knowsKey [.transit] k = false) (pfx : Nat) (cs : List Nat) (ctr : Nat) :
+    ∀ f ∈ dataFrames (.sealWith k) pfx ctr cs, visibleFrame [.transit] f = [] := by
+  intro f hf
+  obtain ⟨c, n, hc⟩ := dataFrames_sealed k pfx cs ctr f hf
+  subst hc
+  simp [visibleFrame, visible, hk]
 
 /-- C04 (iii): a relaying transit — knowing its own private key and everything on the wire — reads no
-    application atom in any frame, for every tunnel kind and every payload. -/
-theorem C04_transit_reads_nothing (kd : Kind) (req dest bound : Nat) (up down : List Nat) :
-    ∀ f ∈ wire kd passive req dest bound up down, visibleFrame [.transit] f = [] := by
+    application atom in any frame, for every tunnel kind, table and payload. -/
+theorem C04_transit_reads_nothing (T : Tables) (kd : Kind) (req dest bound : Nat) (up down : List Nat) :
+    ∀ f ∈ wireWith T kd passive req dest bound up down, visibleFrame [.transit] f = [] := by
   intro f hf
-  cases hty : f.typ with
-  | data =>
-    obtain ⟨c, pfx, n, hc⟩ := C04_payload_sealed kd req dest bound up down f hf hty
-    subst hc
-    rfl
-  | openF =>
-    rw [wire_eq] at hf
-    unfold ingressFrames exitFrames passive at hf
-    simp only [decideWith, dhT] at hf
-    rcases List.mem_append.mp hf with h | h
+  rw [wire_passive] at hf
+  rcases List.mem_cons.mp hf with h | h
+  · subst h; rfl
+  · rcases List.mem_append.mp h with h | h
+    · exact sealed_invisible rfl _ _ _ f h
     · rcases List.mem_cons.mp h with h | h
       · subst h; rfl
-      · obtain ⟨c, n, hc⟩ := dataFrames_sealed _ _ _ _ f h; subst hc; cases hty
-    · rcases List.mem_cons.mp h with h | h
-      · subst h; rfl
-      · obtain ⟨c, n, hc⟩ := dataFrames_sealed _ _ _ _ f h; subst hc; cases hty
-  | ack =>
-    rw [wire_eq] at hf
-    unfold ingressFrames exitFrames passive at hf
-    simp only [decideWith, dhT] at hf
-    rcases List.mem_append.mp hf with h | h
-    · rcases List.mem_cons.mp h with h | h
-      · subst h; rfl
-      · obtain ⟨c, n, hc⟩ := dataFrames_sealed _ _ _ _ f h; subst hc; cases hty
-    · rcases List.mem_cons.mp h with h | h
-      · subst h; rfl
-      · obtain ⟨c, n, hc⟩ := dataFrames_sealed _ _ _ _ f h; subst hc; cases hty
+      · exact sealed_invisible rfl _ _ _ f h
 
 /-! ### the active variant -/
 
-/-- Key fields an active transit can put into a relayed open/ack: the genuine key, all-zero, or its
-    own ephemeral key. -/
-def activeChoices (honest : Term) : List Term := [honest, .zeroKey, .pub .transit]
+/-- Statement against a transit that may REWRITE the key fields (forward, zero, or substitute its
+    own key): still no application atom readable. -/
+def C04_statement_active (T : Tables) : Prop :=
+  ∀ (kd : Kind) (t : Tamper) (req dest bound : Nat) (up down : List Nat),
+    ∀ f ∈ wireWith T kd t req dest bound up down, visibleFrame [.transit] f = []
 
-/-- Statement against a transit that may REWRITE the key fields: still no application atom readable. -/
-def C04_statement_active : Prop :=
-  ∀ (kd : Kind) (t : Tamper), t.ikSeenByExit ∈ activeChoices (.pub .ingress) →
-    t.rkSeenByIngress ∈ activeChoices (.pub .exit) →
-    ∀ (req dest bound : Nat) (up down : List Nat),
-      ∀ f ∈ wire kd t req dest bound up down, visibleFrame [.transit] f = []
-
-/-- Refuted by key substitution (the ephemeral keys are not authenticated): the transit hands each
-    end its own public key and reads the TCP stream.  This is a property of the protocol, not of an
-    implementation slip; it is why the proved statement is about a relaying transit. -/
-theorem C04_active_refuted_mitm : ¬ C04_statement_active := by
+/-- Refuted for EVERY table by key substitution (the ephemeral keys are not authenticated): the
+    transit hands each end its own public key and reads the TCP stream.  A property of the protocol,
+    not of an implementation slip; it is why the proved statement is about a relaying transit. -/
+theorem C04_active_refuted_mitm (T : Tables) : ¬ C04_statement_active T := by
   intro h
-  have := h .tcp ⟨.pub .transit, .pub .transit⟩ (by decide) (by decide) 1 2 3 [7] [8]
+  have := h .tcp ⟨.own, .own⟩ 1 2 3 [7] [8]
     ⟨.data, [.sealed (.kdf (.shared .ingress .transit) 1 (.pub .ingress) (.pub .transit)) 0 0 (.atom 7)]⟩
-    (by decide)
+    (by simp [wireWith, ingressMode, exitMode, ackKey, decideWith, KeyEdit.apply, dhT, dataFrames])
   revert this
   decide
 
-/-- What the pinned tree did: with both key fields of a UDP tunnel zeroed — no key of its own
-    needed — the datagrams of both honest ends crossed the transit in plaintext. -/
+/-- What the pinned tree did: the transit zeroes the key field of a UDP open — no key of its own
+    needed.  The exit answers with a key-less ack, both honest ends run in plaintext mode, and the
+    datagrams of both directions cross the transit readable. -/
 theorem C04_pinned_zero_key_downgrade :
-    ⟨.data, [.atom 7]⟩ ∈ wireWith fallbackV0 .udp ⟨.zeroKey, .zeroKey⟩ 1 2 3 [7] [8] ∧
-    ⟨.data, [.atom 8]⟩ ∈ wireWith fallbackV0 .udp ⟨.zeroKey, .zeroKey⟩ 1 2 3 [7] [8] ∧
-    visibleFrame [.transit] ⟨.data, [.atom 7]⟩ = [7] := by decide
+    ⟨.data, [.atom 7]⟩ ∈ wireWith pinnedT .udp ⟨.zero, .keep⟩ 1 2 3 [7] [8] ∧
+    ⟨.data, [.atom 8]⟩ ∈ wireWith pinnedT .udp ⟨.zero, .keep⟩ 1 2 3 [7] [8] ∧
+    visibleFrame [.transit] ⟨.data, [.atom 7]⟩ = [7] ∧
+    ⟨.data, [.atom 7]⟩ ∈ wireWith pinnedT .icmp ⟨.zero, .zero⟩ 1 2 3 [7] [8] := by decide
 
-/-- The same tampering on the fixed code: no data frame at all (both ends refuse). -/
-theorem C04_fixed_zero_key_refused (kd : Kind) (req dest bound : Nat) (up down : List Nat) :
-    wire kd ⟨.zeroKey, .zeroKey⟩ req dest bound up down = [⟨.openF, [.const req, .const dest, .pub .ingress]⟩] := by
-  rw [wire_eq]
-  cases up <;> simp [ingressFrames, exitFrames, decideWith, noFallback, dataFrames]
+/-- The same tampering once the ingress refuses a key-less ack: the open and the exit's key-less ack,
+    and not a single data frame. -/
+theorem C04_ingress_fixed_zero_key (req dest bound : Nat) (up down : List Nat) :
+    wireWith ingressFixedT .udp ⟨.zero, .keep⟩ req dest bound up down =
+      [⟨.openF, [.const req, .const dest, .pub .ingress]⟩, ⟨.ack, [.const req, .const bound, .zeroKey]⟩] := by
+  simp [wireWith, ingressMode, exitMode, ackKey, decideWith, KeyEdit.apply, ingressFixedT, fallbackV0,
+    noFallback, dataFrames_refuse, Mode.established]
 
-/-- Strongest true restriction: if the transit can only forward or ZERO the key fields (no key of its
-    own), NO tunnel kind leaks anything — a zeroed key stops the tunnel instead of downgrading it. -/
-theorem C04_active_partial (kd : Kind) (t : Tamper)
-    (hi : t.ikSeenByExit = .pub .ingress ∨ t.ikSeenByExit = .zeroKey)
-    (hr : t.rkSeenByIngress = .pub .exit ∨ t.rkSeenByIngress = .zeroKey)
-    (req dest bound : Nat) (up down : List Nat) :
-    ∀ f ∈ wire kd t req dest bound up down, visibleFrame [.transit] f = [] := by
-  have hseal : ∀ (k : Term) (pfx : Nat) (cs : List Nat) (ctr : Nat), knowsKey [.transit] k = false →
-      ∀ f ∈ dataFrames (.sealWith k) pfx ctr cs, visibleFrame [.transit] f = [] := by
-    intro k pfx cs ctr hkk f hf
-    obtain ⟨c, n, hc⟩ := dataFrames_sealed k pfx cs ctr f hf
-    subst hc
-    simp [visibleFrame, visible, hkk]
+/-- Strongest true restriction of the active statement: if the ingress never falls back (whatever
+    the exit side does) and the transit can only forward or ZERO the key fields (no key of its own),
+    NO tunnel kind leaks anything — a zeroed key stops the tunnel instead of downgrading it. -/
+theorem C04_active_partial (T : Tables) (hT : ∀ kd, T.ingress kd = false) (kd : Kind) (t : Tamper)
+    (ho : t.onOpen ≠ .own) (ha : t.onAck ≠ .own) (req dest bound : Nat) (up down : List Nat) :
+    ∀ f ∈ wireWith T kd t req dest bound up down, visibleFrame [.transit] f = [] := by
+  obtain ⟨eo, ea⟩ := t
+  simp only at ho ha
+  have hI := hT kd
   intro f hf
-  obtain ⟨ik, rk⟩ := t
-  simp only at hi hr
-  rw [wire_eq] at hf
-  unfold ingressFrames exitFrames at hf
-  have hk : noFallback kd = false := rfl
-  rcases List.mem_append.mp hf with h | h
-  · rcases List.mem_cons.mp h with h | h
-    · subst h; rfl
-    · rcases hr with hr | hr <;> subst hr <;> simp only [decideWith, hk, dhT] at h
-      · exact hseal _ _ _ _ rfl f h
-      · cases up <;> simp [dataFrames] at h
-  · rcases hi with hi | hi <;> subst hi <;> simp only [decideWith, hk, dhT] at h
-    · rcases List.mem_cons.mp h with h | h
-      · subst h; rfl
-      · exact hseal _ _ _ _ rfl f h
-    · simp at h
+  unfold wireWith at hf
+  rcases List.mem_cons.mp hf with h | h
+  · subst h; rfl
+  · cases eo with
+    | own => exact absurd rfl ho
+    | keep =>
+      -- the exit did a key exchange; the ingress seals with the same key or refuses
+      cases ea with
+      | own => exact absurd rfl ha
+      | keep =>
+        simp only [ingressMode, exitMode, ackKey, decideWith, KeyEdit.apply, dhT] at h
+        rcases List.mem_append.mp h with h | h
+        · exact sealed_invisible rfl _ _ _ f h
+        · rcases List.mem_cons.mp h with h | h
+          · subst h; rfl
+          · exact sealed_invisible rfl _ _ _ f h
+      | zero =>
+        simp only [ingressMode, exitMode, ackKey, decideWith, KeyEdit.apply, dhT, hI,
+          Bool.false_eq_true, if_false, dataFrames_refuse, List.nil_append] at h
+        rcases List.mem_cons.mp h with h | h
+        · subst h; rfl
+        · exact sealed_invisible rfl _ _ _ f h
+    | zero =>
+      -- the exit saw no key: it refuses, or runs in plaintext mode and acks without a key, which
+      -- the ingress refuses whatever the transit does to the ack
+      cases hE : T.exit kd <;>
+        cases ea <;>
+        simp only [ingressMode, exitMode, ackKey, decideWith, KeyEdit.apply, hI, hE,
+          Bool.false_eq_true, if_false, if_true, dataFrames_refuse, List.nil_append,
+          Mode.established, List.mem_cons, or_false, List.not_mem_nil] at h
+      all_goals first
+        | (subst h; rfl)
+        | exact absurd rfl ha
+        | exact h.elim
 
-/-- The kinds that had the plaintext fallback on the pinned tree were exactly UDP and ICMP. -/
-theorem C04_pinned_fallback_kinds : Kind.all.filter fallbackV0 = [.udp, .icmp] := by decide
+/-- `C04_active_partial` applies to the repaired ingress; and the kinds that had the plaintext
+    fallback on the pinned tree were exactly UDP and ICMP. -/
+theorem C04_pinned_fallback_kinds :
+    Kind.all.filter fallbackV0 = [.udp, .icmp] ∧ (∀ kd ∈ Kind.all, ingressFixedT.ingress kd = false) := by
+  decide
 
 /-! ### non-vacuity -/
 
-example : wire .tcp passive 1 2 3 [7] [8] =
+example : wireWith pinnedT .tcp passive 1 2 3 [7] [8] =
     [⟨.openF, [.const 1, .const 2, .pub .ingress]⟩,
      ⟨.data, [.sealed (sessionKey 1) 0 0 (.atom 7)]⟩,
      ⟨.ack, [.const 1, .const 3, .pub .exit]⟩,
